@@ -3,6 +3,9 @@ package props
 import (
 	"encoding/json"
 	"fmt"
+	"go/ast"
+	"go/parser"
+	"go/token"
 	"strings"
 	"time"
 
@@ -59,6 +62,7 @@ type c13gen struct {
 	home    int    // 0 app, 1 lib
 	imports map[int]bool
 	usedPar bool
+	dot     bool // the expression is written in the injector's package, which dot-imports the library
 }
 
 func (g *c13gen) pick(xs []string, l string) string { return rapid.SampledFrom(xs).Draw(g.t, l) }
@@ -72,7 +76,7 @@ func (g *c13gen) specialInt() string {
 	case "unsafe":
 		return g.pick([]string{"F()", "Fn()", "V.Meth()", "<-Ch", "PV.Meth()", "(F)()", "func() int { return 1 }()", "T.Meth(V)"}, "unsafe")
 	case "inaccessible":
-		if g.home == 0 {
+		if g.home == 0 || g.dot {
 			g.usedPar = true
 			return "par"
 		}
@@ -282,7 +286,11 @@ func genC13() *rapid.Generator[*Spec] {
 	return rapid.Custom(func(t *rapid.T) *Spec {
 		s := &Spec{ImportAlias: map[int]string{3: "wconf"}, PkgExtra: map[int]string{}, PkgExtraImports: map[int][]string{}}
 		s.Pkgs = []Pkg{{Dir: "", Name: "app"}, {Dir: "lib", Name: "lib"}, {Dir: "east/conf", Name: "conf"}, {Dir: "west/conf", Name: "conf"}}
+		dot := rapid.IntRange(0, 99).Draw(t, "dotimport") < 20
 		for home := 0; home <= 1; home++ {
+			if dot && home == 0 {
+				continue // the injector's package takes every name from the dot-imported library
+			}
 			s.Decls = append(s.Decls,
 				Decl{Pkg: home, Name: "T", Form: "struct", Fields: []SField{{Name: "A", T: Basic("int")}, {Name: "B", T: Basic("string")}, {Name: "S", T: Slice(Basic("int"))}, {Name: "MM", T: Map(Basic("int"))}, {Name: "hidden", T: Basic("int")}}, Methods: []Method{{Name: "M"}}},
 				Decl{Pkg: home, Name: "N", Form: "def", Under: Basic("int")},
@@ -292,6 +300,10 @@ func genC13() *rapid.Generator[*Spec] {
 			)
 		}
 		s.PkgExtra[0], s.PkgExtra[1] = c13EnvApp, c13EnvLib
+		if dot {
+			delete(s.PkgExtra, 0)
+			s.DotImports = []int{1}
+		}
 		s.PkgExtra[2] = "var Default = \"east\"\n\nvar Port = 80\n"
 		s.PkgExtra[3] = "var Default = \"west\"\n\nvar Port = 81\n"
 		nExpr := rapid.IntRange(2, 6).Draw(t, "nexpr")
@@ -304,7 +316,10 @@ func genC13() *rapid.Generator[*Spec] {
 		var notes []string
 		excludedD20 := false
 		for k := 0; k < nExpr; k++ {
-			g := &c13gen{t: t, home: rapid.IntRange(0, 1).Draw(t, "home")}
+			g := &c13gen{t: t, home: rapid.IntRange(0, 1).Draw(t, "home"), dot: dot}
+			if dot {
+				g.home = 1
+			}
 			ty := rapid.SampledFrom(c13TypeNames).Draw(t, "type")
 			form := rapid.SampledFrom([]string{"value", "value", "value", "ivalue"}).Draw(t, "form")
 			cls := ""
@@ -357,20 +372,32 @@ func genC13() *rapid.Generator[*Spec] {
 				it.Out = Named(findDecl(s, "I", g.home))
 				it.Conc = c13Type(s, ty, g.home)
 			}
+			for _, d := range s.Decls {
+				if !c13EnvNames[d.Name] {
+					c13EnvNames[d.Name] = true
+				}
+			}
+			if dot && c13UsesEnv(it.Expr) {
+				it.ExprImports = append(it.ExprImports, 1)
+			}
 			ii := addItem(s, it)
 			in := Injector{Name: fmt.Sprintf("Inject%d", k), Out: it.Out, Panic: rapid.Bool().Draw(t, "panicform")}
 			if g.usedPar {
 				in.Params = []Param{{Name: "par", T: Basic("int")}}
 			}
 			place := rapid.SampledFrom([]string{"set", "set", "direct"}).Draw(t, "place")
-			if g.home == 1 || g.usedPar && false {
+			if g.home == 1 && !dot {
 				place = "set"
 			}
 			if g.usedPar {
 				place = "direct"
 			}
 			if place == "set" {
-				s.Sets = append(s.Sets, Set{Pkg: g.home, Name: fmt.Sprintf("VSet%d", k), Args: []Ref{RItem(ii)}, AliasOf: -1})
+				setPkg := g.home
+				if dot {
+					setPkg = 0
+				}
+				s.Sets = append(s.Sets, Set{Pkg: setPkg, Name: fmt.Sprintf("VSet%d", k), Args: []Ref{RItem(ii)}, AliasOf: -1})
 				in.Args = []Ref{RSet(len(s.Sets) - 1)}
 				s.Injectors = append(s.Injectors, in)
 				twin := in
@@ -389,6 +416,9 @@ func genC13() *rapid.Generator[*Spec] {
 		if excludedD20 {
 			notes = append(notes, "d20-excluded")
 		}
+		if dot {
+			notes = append(notes, "dot-import")
+		}
 		s.Note = "C13 " + strings.Join(notes, " ")
 		// plan: every injector twice
 		for k := range s.Injectors {
@@ -396,6 +426,59 @@ func genC13() *rapid.Generator[*Spec] {
 		}
 		return s
 	})
+}
+
+// c13EnvNames are the package-level names of the value environment.
+var c13EnvNames = func() map[string]bool {
+	f, err := parser.ParseFile(token.NewFileSet(), "env.go", "package p\n"+c13EnvLib, 0)
+	if err != nil {
+		panic(err)
+	}
+	m := map[string]bool{"T": true, "I": true, "Gen": true}
+	for name := range f.Scope.Objects {
+		m[name] = true
+	}
+	return m
+}()
+
+// c13UsesEnv reports whether the expression mentions a package-level name of
+// the environment (so that a file holding it needs the environment's import).
+func c13UsesEnv(expr string) bool {
+	e, err := parser.ParseExpr(expr)
+	if err != nil {
+		return true
+	}
+	uses := false
+	ast.Inspect(e, func(n ast.Node) bool {
+		switch n := n.(type) {
+		case *ast.SelectorExpr:
+			ast.Inspect(n.X, func(m ast.Node) bool {
+				if id, ok := m.(*ast.Ident); ok && c13EnvNames[id.Name] {
+					uses = true
+				}
+				return true
+			})
+			return false
+		case *ast.KeyValueExpr:
+			// struct field keys are not references; map keys would be, and are
+			// visited through the generic case when they are not identifiers
+			if _, ok := n.Key.(*ast.Ident); ok {
+				ast.Inspect(n.Value, func(m ast.Node) bool {
+					if id, ok := m.(*ast.Ident); ok && c13EnvNames[id.Name] {
+						uses = true
+					}
+					return true
+				})
+				return false
+			}
+		case *ast.Ident:
+			if c13EnvNames[n.Name] {
+				uses = true
+			}
+		}
+		return true
+	})
+	return uses
 }
 
 func findDecl(s *Spec, name string, pkg int) int {
